@@ -106,7 +106,8 @@ theorem dimsFn_checkedPow (u : Compound) (n : Int) (k : UnitKey) :
 /-- **C04 (integer power).** For an exponent `n` within the `i32` range (larger
 exponents of a quantity with a unit are refused as a bad argument). -/
 theorem C04_pow (s e : Nat) (a : Numeric) (n : Int) (d : List Desc)
-    (hn : -2147483648 ≤ n ∧ n ≤ 2147483647) (ha : a.unit ≠ []) :
+    (hn : -2147483648 ≤ n ∧ n ≤ 2147483647) (ha : a.unit ≠ [])
+    (hfit : Compound.powFits a.unit n = true) :
     match SI.qpow (siQ a) n with
     | .ok q => ∃ r, Eval.pow s e a { value := n, unit := [] } d = (.ok r, d) ∧ siQ r = q
     | .error _ => Eval.pow s e a { value := n, unit := [] } d = (.error (.err .divideByZero s e), d) := by
@@ -117,7 +118,7 @@ theorem C04_pow (s e : Nat) (a : Numeric) (n : Int) (d : List Desc)
   unfold Eval.pow
   simp only [List.isEmpty_nil, Bool.not_true, Bool.false_eq_true, ↓reduceIte, Rat.den_intCast,
     ne_eq, not_true_eq_false, Rat.num_intCast, hempty, Bool.not_false, Bool.true_and, hr1, hr2,
-    decide_false, Bool.or_self]
+    decide_false, Bool.or_self, hfit, Bool.not_true]
   rw [siQ_eq]
   simp only [SI.qpow, mul_eq_zero, hsc, or_false]
   by_cases hn0 : n = 0
@@ -157,6 +158,28 @@ theorem C04_pow (s e : Nat) (a : Numeric) (n : Int) (d : List Desc)
           rw [zpow_natCast]
       · congr 1; funext bb; rw [dimsFn_checkedPow]
 
+/-- **C04 (a power that leaves the `i32` range).** When some unit's power times the
+exponent does not fit an `i32` (or the exponent itself does not) the result is the
+`badArgument` error — never a number with a wrapped power. -/
+theorem C04_pow_overflow (s e : Nat) (a : Numeric) (n : Int) (d : List Desc) (ha : a.unit ≠ [])
+    (h : n < -2147483648 ∨ n > 2147483647 ∨ Compound.powFits a.unit n = false) :
+    Eval.pow s e a { value := n, unit := [] } d = (.error (.err .badArgument s e), d) := by
+  have hempty : a.unit.isEmpty = false := by cases hu : a.unit <;> simp_all
+  unfold Eval.pow
+  simp only [List.isEmpty_nil, Bool.not_true, Bool.false_eq_true, ↓reduceIte, Rat.den_intCast,
+    ne_eq, not_true_eq_false, Rat.num_intCast, hempty, Bool.not_false, Bool.true_and]
+  split
+  · rfl
+  · rename_i hc
+    exfalso; apply hc
+    rcases h with h | h | h <;> simp [h]
+
+theorem powFits_zero (c : Compound) : Compound.powFits c 0 = true := by
+  unfold Compound.powFits
+  rw [List.all_eq_true]
+  intro x _
+  simp
+
 /-- **C04 (zero power).** Any quantity to the power zero is the dimensionless one. -/
 theorem C04_pow_zero (s e : Nat) (a : Numeric) (d : List Desc) :
     Eval.pow s e a { value := 0, unit := [] } d = (.ok { value := 1, unit := [] }, d) := by
@@ -172,7 +195,7 @@ theorem C04_pow_zero (s e : Nat) (a : Numeric) (d : List Desc) :
   | nil => simp [pure]
   | cons x xs =>
     have this' : Compound.checkedPow (x :: xs) 0 = [] := hu ▸ this
-    simp [this', pure]
+    simp [this', pure, powFits_zero]
 
 /-- **C04 (a power is a repeated product).** At the SI level `a^(n+1) = a^n · a`. -/
 theorem C04_pow_succ (q : SI.Q) (n : Nat) :
